@@ -237,7 +237,12 @@ func ruleR06b(c *Check) {
 		}
 		var skips []*ssa.Return
 		for _, r := range engine.Returns(fn) {
-			if !isNilErrReturn(r) {
+			if r.Block() == fn.Recover {
+				continue
+			}
+			// a return that may report success: a literal nil, or the result of a helper (the restore of the
+			// permission on the skip path, say) that is not known to be an error
+			if !isNilErrReturn(r) && definitelyNonNilReturn(fn, r) {
 				continue
 			}
 			if reach, _ := engine.PathExists(fn, nil, engine.IsInstr(r), engine.PathQuery{CutInstr: isRead}); reach {
